@@ -43,7 +43,7 @@ pub struct PolicyState<B, C> {
     consts: GarbleConsts,
     cmd_rx: mpsc::Receiver<PolicyCmd>,
     cmd_tx: mpsc::Sender<PolicyCmd>,
-    channel_senders: Vec<mpsc::Sender<Vec<u8>>>,
+    channel_senders: Vec<Option<mpsc::Sender<Vec<u8>>>>,
     channel_receivers: Option<Vec<tokio::sync::Mutex<mpsc::Receiver<Vec<u8>>>>>,
     // the spawned task that sends our constants to the other parties (state SendingConsts)
     consts_task: Option<tokio::task::JoinHandle<()>>,
@@ -530,10 +530,12 @@ where
     fn init_channel(&mut self, policy: &Policy) {
         let mut channel_senders = vec![];
         let mut channel_receivers = vec![];
-        for _ in 0..policy.participants.len() {
+        for p in 0..policy.participants.len() {
             // TODO buffer size?
             let (sender, receiver) = mpsc::channel(10);
-            channel_senders.push(sender);
+            // Nobody sends MPC messages to itself, and nothing ever reads the queue of the own
+            // index: accepted there, stray messages would fill it and then block the state machine.
+            channel_senders.push((p != policy.party).then_some(sender));
             channel_receivers.push(tokio::sync::Mutex::new(receiver));
         }
         self.channel_senders = channel_senders;
@@ -1119,7 +1121,7 @@ where
     async fn msg(&self, mpc_msg: MpcMsg, ret: Ret<MpcMsgError>) -> ControlFlow<()> {
         // The sender index comes from an unauthenticated request and the channels only exist
         // once a policy has been scheduled, so it must not be used to index unchecked.
-        let Some(sender) = self.channel_senders.get(mpc_msg.from) else {
+        let Some(Some(sender)) = self.channel_senders.get(mpc_msg.from) else {
             ret_err(ret, MpcMsgError::UnknownParty(mpc_msg.from));
             return ControlFlow::Continue(());
         };
